@@ -968,3 +968,13 @@ Example keepalive_nonvacuous :
   /\ enabled (d_now d) (d_ka d) = true
   /\ d_ka (fst (step cur d ESelect)) = TAt 20.
 Proof. vm_compute. repeat split. Qed.
+
+(* Record of finding C08-3 (repaired): negotiating with the configured number
+   instead of the value the OPEN advertised.  A configured hold time of 1 is
+   advertised as 0; against a peer advertising 30 the two advertised values
+   give 0 (no timers), the configured number gave 1. *)
+Lemma C08_raw_local_hold_refuted :
+  exists (local remote : N),
+    open_hold local = 0 /\ hold_in_force (open_hold local) remote = 0 /\ N.min local remote = 1
+    /\ open_hold 65536 = 0 /\ N.min 65536 remote = remote /\ remote <> 0.
+Proof. exists 1, 30. vm_compute. repeat split; discriminate. Qed.
